@@ -167,7 +167,9 @@ def _moslem_chunk(job):
                     probs.append(("g2m-roundtrip", "%d" % hh, "gregorian2moslem%s = %s, but %s is moslem2gregorian(%d, %d, %d)" % (g, back, g, hh, m, d)))
             except NotEvaluable as e:
                 return n, [("not-evaluable", "", "%s at %d-%d-%d AH" % (e, hh, m, d))]
-            except (TypeError, ValueError, ZeroDivisionError, IndexError) as e:
+            except (TypeError, ValueError, IndexError, KeyError) as e:     # the evaluator's own limits are not evidence against the code
+                return n, [("not-evaluable", "", "%s: %s at %d-%d-%d AH" % (type(e).__name__, e, hh, m, d))]
+            except ZeroDivisionError as e:
                 probs.append(("error", "%d" % hh, "%s: %s at %d-%d-%d AH" % (type(e).__name__, e, hh, m, d)))
     return n, probs
 
@@ -329,7 +331,10 @@ def feast_cycle(repo, rep, tier):
             except NotEvaluable as e:
                 broke = "%s at year %d" % (e, y)
                 break
-            except (TypeError, ValueError, ZeroDivisionError, IndexError) as e:
+            except (TypeError, ValueError, IndexError, KeyError) as e:     # the evaluator's own limits are not evidence against the code
+                broke = "%s: %s at year %d" % (type(e).__name__, e, y)
+                break
+            except ZeroDivisionError as e:
                 bad.setdefault("error", []).append((y, "%s: %s" % (type(e).__name__, e)))
                 continue
             n += 1
